@@ -4,7 +4,7 @@ use crate::oracle::{check_output, Violation};
 use crate::rng::{run_seed, Rng};
 use crate::rsparse::Val;
 use crate::world::{self, Decision, FsImage, IterRecord, Mode, Profile, RunStats, Tweak, World};
-use std::collections::{BTreeMap, VecDeque};
+use std::collections::BTreeMap;
 use std::panic::{catch_unwind, AssertUnwindSafe};
 use std::sync::Arc;
 
@@ -56,6 +56,12 @@ pub struct RunResult {
     /// `process::exit(code)` called by the generator
     pub exit_code: Option<i32>,
     pub hard_fired: bool,
+    /// a deadline passed (stalled-machine fault) during this run
+    pub stalled: bool,
+    /// ran under the shuttle engine (the generator uses threads or sync primitives)
+    pub under_shuttle: bool,
+    /// digest of the sequence of scheduled task ids
+    pub sched_digest: u64,
     pub diverged: bool,
     pub leftover_decisions: usize,
     pub verbose_log: Option<Vec<String>>,
@@ -97,6 +103,96 @@ pub fn execute(gen: Gen, image: &Arc<FsImage>, mode: Mode, collect: bool, verbos
     execute_with(gen, image, mode, collect, verbose, None)
 }
 
+/// Set once a generator was seen to use threads or sync primitives: from then on every run of this
+/// process executes under the shuttle engine (a run is the same function of its seed either way;
+/// programs without threads have exactly one schedule).
+pub static USE_SHUTTLE: std::sync::atomic::AtomicBool = std::sync::atomic::AtomicBool::new(false);
+
+fn run_generator(gen: Gen) {
+    match gen {
+        Gen::Layout => crate::gens::layout::run(),
+        Gen::Likely => crate::gens::likely::run(),
+    }
+}
+
+/// The simulator's thread scheduler, plugged into the shuttle engine: every choice is delegated to
+/// the run's `World` (seeded policy or explicit schedule), which also records it.
+struct SimSched {
+    started: bool,
+}
+
+impl shuttle::scheduler::Scheduler for SimSched {
+    fn new_execution(&mut self) -> Option<shuttle::scheduler::Schedule> {
+        if self.started {
+            None
+        } else {
+            self.started = true;
+            Some(shuttle::scheduler::Schedule::new(0))
+        }
+    }
+    fn next_task(
+        &mut self,
+        runnable: &[&shuttle::scheduler::Task],
+        current: Option<shuttle::scheduler::TaskId>,
+        is_yielding: bool,
+    ) -> Option<shuttle::scheduler::TaskId> {
+        let mut ids: Vec<u32> = runnable.iter().map(|t| usize::from(t.id()) as u32).collect();
+        ids.sort_unstable();
+        let cur = current.map(|c| usize::from(c) as u32);
+        let pick = world::with(|w| w.decide_sched(&ids, cur, is_yielding));
+        runnable
+            .iter()
+            .find(|t| usize::from(t.id()) as u32 == pick)
+            .map(|t| t.id())
+    }
+    fn next_u64(&mut self) -> u64 {
+        0x5eed
+    }
+}
+
+fn shuttle_config() -> shuttle::Config {
+    let mut cfg = shuttle::Config::new();
+    cfg.stack_size = 8 << 20;
+    cfg.failure_persistence = shuttle::FailurePersistence::None;
+    cfg.max_steps = shuttle::MaxSteps::FailAfter(3_000_000);
+    cfg.silence_warnings = true;
+    cfg
+}
+
+/// Make shuttle install its process-wide panic hook now (it does so once, at its first
+/// execution), so that the simulator's own hook, installed afterwards, sits on top of it.
+pub fn prime_shuttle() {
+    let runner = shuttle::Runner::new(SimSchedNoWorld { started: false }, shuttle_config());
+    runner.run(|| {});
+}
+
+struct SimSchedNoWorld {
+    started: bool,
+}
+impl shuttle::scheduler::Scheduler for SimSchedNoWorld {
+    fn new_execution(&mut self) -> Option<shuttle::scheduler::Schedule> {
+        if self.started {
+            None
+        } else {
+            self.started = true;
+            Some(shuttle::scheduler::Schedule::new(0))
+        }
+    }
+    fn next_task(
+        &mut self,
+        runnable: &[&shuttle::scheduler::Task],
+        _current: Option<shuttle::scheduler::TaskId>,
+        _is_yielding: bool,
+    ) -> Option<shuttle::scheduler::TaskId> {
+        runnable.first().map(|t| t.id())
+    }
+    fn next_u64(&mut self) -> u64 {
+        0
+    }
+}
+
+const NEEDS_SHUTTLE: &str = "Shuttle primitive outside of a Shuttle test";
+
 pub fn execute_with(
     gen: Gen,
     image: &Arc<FsImage>,
@@ -105,23 +201,51 @@ pub fn execute_with(
     verbose: bool,
     hard: Option<world::HardPlan>,
 ) -> RunResult {
+    use std::sync::atomic::Ordering;
+    if !USE_SHUTTLE.load(Ordering::Relaxed) {
+        let r = execute_once(gen, image, mode.clone(), collect, verbose, hard, false);
+        match &r.panic {
+            Some(p) if p.contains(NEEDS_SHUTTLE) => {
+                // the generator touched a thread / lock / channel / atomic: run it under the engine
+                USE_SHUTTLE.store(true, Ordering::Relaxed);
+            }
+            _ => return r,
+        }
+    }
+    execute_once(gen, image, mode, collect, verbose, hard, true)
+}
+
+fn execute_once(
+    gen: Gen,
+    image: &Arc<FsImage>,
+    mode: Mode,
+    collect: bool,
+    verbose: bool,
+    hard: Option<world::HardPlan>,
+    under_shuttle: bool,
+) -> RunResult {
     let profile = match &mode {
         Mode::Random { profile, .. } => Some(*profile),
-        Mode::Replay { .. } => None,
+        Mode::Replay(_) => None,
     };
     world::PANIC_INFO.with(|p| *p.borrow_mut() = None);
-    crate::seams::simthread::reset();
     let mut fresh = World::new(image.clone(), mode, collect, verbose);
     fresh.hard = hard;
+    if under_shuttle {
+        fresh.stats.shuttle_runs = 1;
+    }
     world::install(fresh);
-    let r = catch_unwind(AssertUnwindSafe(|| match gen {
-        Gen::Layout => crate::gens::layout::run(),
-        Gen::Likely => crate::gens::likely::run(),
-    }));
-    crate::seams::simthread::reset();
+    let r = if under_shuttle {
+        catch_unwind(AssertUnwindSafe(|| {
+            let runner = shuttle::Runner::new(SimSched { started: false }, shuttle_config());
+            runner.run(move || run_generator(gen));
+        }))
+    } else {
+        catch_unwind(AssertUnwindSafe(|| run_generator(gen)))
+    };
     let w = world::uninstall();
     let mut exit_code = None;
-    let panic = match r {
+    let mut panic = match r {
         Ok(()) => None,
         Err(payload) => match payload.downcast_ref::<crate::seams::simenv::ExitRequest>() {
             Some(e) => {
@@ -139,6 +263,18 @@ pub fn execute_with(
             ),
         },
     };
+    // `main` had already returned (the process was gone) when a detached thread failed, blocked
+    // for ever or the step bound ran out: that never happened as far as the outside world can tell
+    if w.frozen && w.exit_code.is_none() && exit_code.is_none() && panic.is_some() {
+        panic = None;
+    }
+    if exit_code.is_none() {
+        // process::exit called on a thread other than the one whose unwinding reached us
+        if let Some(c) = w.exit_code {
+            exit_code = Some(c);
+            panic = if c == 0 { None } else { Some(format!("generator called process::exit({})", c)) };
+        }
+    }
     // what the generator produced: its stdout; if it printed nothing but wrote files, the file
     // that replaces the checked-in table (or, failing that, everything it wrote)
     let mut out = w.out;
@@ -158,7 +294,7 @@ pub fn execute_with(
             .join("\n");
     }
     let leftover = match &w.mode {
-        Mode::Replay { q } => q.len(),
+        Mode::Replay(p) => p.leftover(),
         _ => 0,
     };
     RunResult {
@@ -174,6 +310,9 @@ pub fn execute_with(
         panic,
         exit_code,
         hard_fired: w.hard_fired,
+        stalled: w.stalled,
+        under_shuttle,
+        sched_digest: w.sched_digest.0,
         diverged: w.diverged,
         leftover_decisions: leftover,
         verbose_log: w.verbose_log,
@@ -183,18 +322,24 @@ pub fn execute_with(
 /// Seeded run `run` of generator `gen` under batch seed `seed`.
 pub fn random_mode(seed: u64, gen: Gen, run: u64) -> Mode {
     let mut rng = Rng::new(run_seed(seed, gen.stream(), run));
-    let profile = Profile::draw(&mut rng);
-    Mode::Random { rng, profile }
+    let mut profile = Profile::draw(&mut rng);
+    // everything added after the first release draws from its own stream (see Profile::draw_aux)
+    let mut aux = Rng::new(run_seed(seed, gen.stream() + 32, run));
+    profile.draw_aux(&mut aux);
+    Mode::Random { rng, aux, profile }
 }
 
 pub fn replay_mode(schedule: &[Decision]) -> Mode {
-    Mode::Replay {
-        q: schedule.iter().cloned().collect::<VecDeque<_>>(),
-    }
+    Mode::Replay(world::ReplayPlan::new(schedule))
 }
 
 /// R1 + R2 for one run. `good` caches outputs already judged equal to the compiled tables.
 pub fn judge(r: &RunResult, comp: &BTreeMap<String, Val>, good: &mut Vec<String>) -> Vec<Violation> {
+    if r.panic.is_some() && r.stalled {
+        // a deadline passed in this run (stalled-machine fault): failing loudly is acceptable,
+        // only a *completed* run with a wrong table counts (DESIGN §4.4)
+        return vec![];
+    }
     if let Some(p) = &r.panic {
         // identity of a crash = where it happened + its message with numbers masked (JSON error
         // positions, lengths and the like differ from schedule to schedule)
